@@ -178,6 +178,105 @@ theorem eat_error (s : Src) (h : (s.eat).1.kind = .Error) :
         · exact h
       exact Or.inr (he this)
 
+theorem nextNotTrivia_len (fuel : Nat) (s : Src) (racc : List Char) :
+    racc.length ≤ (nextNotTrivia fuel s racc).1.length := by
+  induction fuel generalizing s racc with
+  | zero => simp [nextNotTrivia]
+  | succ n ih =>
+    simp only [nextNotTrivia]
+    split
+    · have := ih (s.lexEat).2 ((s.lexEat).1.text.reverseAux racc)
+      simp [List.reverseAux_eq] at this ⊢; omega
+    · simp
+
+theorem eatUntil_len (fuel d : Nat) (s : Src) (racc : List Char) :
+    racc.length ≤ (eatUntil fuel d s racc).1.length := by
+  induction fuel generalizing d s racc with
+  | zero => simp [eatUntil]
+  | succ n ih =>
+    have step : ∀ d, racc.length ≤ (eatUntil n d (s.lexEat).2 ((s.lexEat).1.text.reverseAux racc)).1.length := by
+      intro d
+      have := ih d (s.lexEat).2 ((s.lexEat).1.text.reverseAux racc)
+      simp [List.reverseAux_eq] at this ⊢; omega
+    have base : racc.length ≤ ((s.lexEat).1.text.reverseAux racc).length := by
+      simp [List.reverseAux_eq]
+    simp only [eatUntil]
+    split
+    · exact step _
+    · exact step _
+    · split
+      · exact step _
+      · exact base
+    · split
+      · exact base
+      · exact step _
+    · exact base
+    · exact step _
+
+theorem len_reverseAux (t racc : List Char) : (t.reverseAux racc).length = t.length + racc.length := by
+  simp [List.reverseAux_eq]
+
+theorem processIf_text_len (b : Bool) (d : Tok) (s : Src) : d.text.length ≤ (processIf b d s).1.text.length := by
+  unfold processIf
+  have h1 := nextNotTrivia_len (fuelOf s) s d.text.reverse
+  simp only [List.length_reverse] at h1
+  simp only []
+  split
+  · split
+    · have := eatUntil_len (fuelOf (nextNotTrivia (fuelOf s) s d.text.reverse).2.2) 1 (nextNotTrivia (fuelOf s) s d.text.reverse).2.2
+        ((nextNotTrivia (fuelOf s) s d.text.reverse).2.1.text.reverseAux (nextNotTrivia (fuelOf s) s d.text.reverse).1)
+      simp only [len_reverseAux] at this
+      simp only [List.length_reverse]
+      exact Nat.le_trans h1 (Nat.le_trans (Nat.le_add_left _ _) this)
+    · simp only [List.length_reverse, len_reverseAux]; omega
+  · simp only [List.length_reverse, len_reverseAux]; omega
+
+theorem processDefine_text_len (d : Tok) (s : Src) : d.text.length ≤ (processDefine d s).1.text.length := by
+  unfold processDefine
+  have h1 := nextNotTrivia_len (fuelOf s) s d.text.reverse
+  simp only [List.length_reverse] at h1
+  simp only []
+  split <;> (simp only [List.length_reverse, len_reverseAux]; omega)
+
+/-- every delivered non-`Eof` token has non-empty text (so consuming it makes progress) -/
+theorem eat_text_ne_nil (s : Src) (h : (s.eat).1.kind ≠ .Eof) : (s.eat).1.text ≠ [] := by
+  unfold eat at h ⊢
+  have hne : (s.lexEat).1.kind ≠ .Eof → (s.lexEat).1.text ≠ [] := by
+    intro hk
+    have : s.rest ≠ [] := fun hr => hk ((lexEat_eof s).mpr hr)
+    simpa [lexEat] using Lex.next_text_ne_nil s.rest this
+  cases hle : s.lexEat with
+  | mk t s1 =>
+    rw [hle] at h hne
+    simp only [] at h hne ⊢
+    have lenpos : ∀ (l : List Char), 0 < l.length → l ≠ [] := fun l hl => List.length_pos_iff.mp hl
+    split
+    · rename_i hk
+      have ht : 0 < t.text.length := List.length_pos_iff.mpr (hne (by rw [hk]; simp))
+      apply lenpos; have := processIf_text_len true t s1; omega
+    · rename_i hk
+      have ht : 0 < t.text.length := List.length_pos_iff.mpr (hne (by rw [hk]; simp))
+      apply lenpos; have := processIf_text_len false t s1; omega
+    · rename_i hk
+      have ht : 0 < t.text.length := List.length_pos_iff.mpr (hne (by rw [hk]; simp))
+      apply lenpos
+      have := eatUntil_len (fuelOf s1) 1 s1 t.text.reverse
+      simp only [List.length_reverse] at this ⊢; omega
+    · rename_i hk
+      exact hne (by rw [hk]; simp)
+    · rename_i hk
+      have ht : 0 < t.text.length := List.length_pos_iff.mpr (hne (by rw [hk]; simp))
+      apply lenpos; have := processDefine_text_len t s1; omega
+    · rename_i h1 h2 h3 h4 h5
+      apply hne
+      split at h
+      · exact absurd ‹_› h1
+      · exact absurd ‹_› h2
+      · exact absurd ‹_› h3
+      · exact absurd ‹_› h4
+      · exact absurd ‹_› h5
+      · exact h
+
 theorem takeError_some (s : Src) (h : s.prepErr.isSome = true ∨ s.lexErr.isSome = true) :
     ∃ m s', s.takeError = (some m, s') ∧ s'.rest = s.rest := by
   unfold takeError
